@@ -37,6 +37,9 @@ pub enum TOp {
     Advance { ns: u64 },
     /// n inserts of fresh keys in a row (to fill the write queue)
     Fill { n: u32 },
+    /// n gets of one key in a row (to fill the read queue while somebody else is inside a
+    /// maintenance run)
+    Gets { k: u32, n: u32 },
 }
 
 #[derive(Clone, Debug, PartialEq, Eq, Hash, Serialize, Deserialize)]
@@ -94,6 +97,11 @@ struct St {
     /// (order, thread, site): the moment a thread *left* a send-type switch point,
     /// i.e. the moment its operation was actually put into the queue
     departures: Vec<(u32, usize, u16)>,
+    /// per thread: the clock value its current operation read (at the switch point that
+    /// directly follows the library's clock read; no other thread can run in between)
+    last_reading: Vec<Option<u64>>,
+    /// the clock was advanced while some thread was inside a maintenance run
+    advance_during_maintenance: bool,
 }
 
 struct Shared {
@@ -105,6 +113,8 @@ struct Shared {
     /// structural walk of the cache (C08); called at operation boundaries while no
     /// thread holds the maintenance lock
     walk: Option<Box<dyn Fn() -> Result<(), String> + Send + Sync>>,
+    /// the mock clock's current value in ns
+    clock_ns: Arc<AtomicU64>,
 }
 
 impl Shared {
@@ -186,6 +196,12 @@ impl Shared {
         let step = st.step;
         if st.trace_events {
             st.events.push((step, me, s));
+        }
+        if s == OP_START {
+            st.last_reading[me] = None;
+        }
+        if s == site::INSERT_AFTER_CLOCK || s == site::GET_AFTER_CLOCK || s == site::INVALIDATE_ALL_AFTER_CLOCK {
+            st.last_reading[me] = Some(self.clock_ns.load(Ordering::SeqCst));
         }
         if s == OP_START || s == site::WRITE_RETRY || s == site::WRITE_BEFORE_SEND {
             if let Some(p) = &self.probe {
@@ -328,6 +344,8 @@ pub struct Rec {
     pub result: Option<u32>,
     /// insert: the value's sequence number
     pub wrote: Option<u32>,
+    /// insert / get / invalidate_all: the clock value the operation read
+    pub reading: Option<u64>,
 }
 
 #[derive(Default, Clone, Debug)]
@@ -343,6 +361,9 @@ pub struct SchedStats {
     pub max_map_len: usize,
     pub had_invalidation: bool,
     pub get_hits: u32,
+    /// get hits for which the expiry oracle (C05/C06) could decide
+    pub expiry_decided: u32,
+    pub advance_during_maintenance: bool,
 }
 
 pub struct SchedRun {
@@ -385,6 +406,14 @@ fn exec_op(cache: &Cache, reg: &Arc<Reg>, clock: &mini_moka::verif::MockClock, c
             clock_ns.fetch_add(*ns, Ordering::SeqCst);
             (None, None)
         }
+        TOp::Gets { k, n } => {
+            let mut last = None;
+            for _ in 0..*n {
+                last = cache.get(&TK::new(*k, reg)).map(|v| v.seq);
+            }
+            let _ = last;
+            (None, None)
+        }
         TOp::Fill { n } => {
             for _ in 0..*n {
                 let k = fresh.fetch_add(1, Ordering::SeqCst);
@@ -412,7 +441,7 @@ pub fn run_sched_case(case: &SchedCase, prop: &str, trace: bool) -> SchedRun {
     for (i, op) in case.init.iter().enumerate() {
         let c0 = clock_ns.load(Ordering::SeqCst);
         let (res, wrote) = exec_op(&cache, &reg, &clock, &clock_ns, &seqs, &fresh, op);
-        recs.push(Rec { thread: usize::MAX, idx: i, op: op.clone(), start: 2 * i as u32 + 1, end: 2 * i as u32 + 2, clock_start: c0, clock_end: clock_ns.load(Ordering::SeqCst), result: res, wrote });
+        recs.push(Rec { thread: usize::MAX, idx: i, op: op.clone(), start: 2 * i as u32 + 1, end: 2 * i as u32 + 2, clock_start: c0, clock_end: clock_ns.load(Ordering::SeqCst), result: res, wrote, reading: Some(c0) });
         if trace {
             tr.push(format!("init: {:?} -> {:?}{}", op, res, wrote.map(|s| format!(" (v{s})")).unwrap_or_default()));
         }
@@ -432,10 +461,12 @@ pub fn run_sched_case(case: &SchedCase, prop: &str, trace: bool) -> SchedRun {
             patience: case.patience,
             patience_left: case.patience,
             in_sync: vec![false; n],
+            last_reading: vec![None; n],
             trace_events: trace || prop == "C12",
             ..St::default()
         }),
         cv: Condvar::new(),
+        clock_ns: Arc::clone(&clock_ns),
         walk: if prop == "C08" {
             let c = cache.clone();
             Some(Box::new(move || c.verif_walk(false)))
@@ -469,11 +500,18 @@ pub fn run_sched_case(case: &SchedCase, prop: &str, trace: bool) -> SchedRun {
                 sh.wait_for_turn(t);
                 for (i, op) in prog.iter().enumerate() {
                     sh.on_site(t, OP_START);
+                    if matches!(op, TOp::Advance { .. }) {
+                        let mut st = sh.lock();
+                        if st.in_sync.iter().any(|b| *b) {
+                            st.advance_during_maintenance = true;
+                        }
+                    }
                     let start = tick(&sh);
                     let c0 = clock_ns.load(Ordering::SeqCst);
                     let (res, wrote) = exec_op(&cache, &reg, &clock, &clock_ns, &seqs, &fresh, op);
                     let end = tick(&sh);
-                    my.push(Rec { thread: t, idx: i, op: op.clone(), start: start + off, end: end + off, clock_start: c0, clock_end: clock_ns.load(Ordering::SeqCst), result: res, wrote });
+                    let reading = sh.lock().last_reading[t];
+                    my.push(Rec { thread: t, idx: i, op: op.clone(), start: start + off, end: end + off, clock_start: c0, clock_end: clock_ns.load(Ordering::SeqCst), result: res, wrote, reading });
                 }
             }));
             if let Err(p) = r {
@@ -513,6 +551,7 @@ pub fn run_sched_case(case: &SchedCase, prop: &str, trace: bool) -> SchedRun {
         stats.retry_yields = st.retry_yields;
         stats.write_queue_filled = st.retry_yields > 0;
         stats.max_map_len = st.max_map_len;
+        stats.advance_during_maintenance = st.advance_during_maintenance;
         (st.abort.clone(), st.events.clone())
     };
     let unused_preemption = case.preempt.iter().any(|p| p.0 > stats.steps);
@@ -520,7 +559,7 @@ pub fn run_sched_case(case: &SchedCase, prop: &str, trace: bool) -> SchedRun {
     if trace {
         for r in &recs {
             if r.thread != usize::MAX {
-                tr.push(format!("[{}..{}] t{} {:?} -> {:?}{} (clock {})", r.start, r.end, r.thread, r.op, r.result, r.wrote.map(|s| format!(" wrote v{s}")).unwrap_or_default(), fmt_ns(r.clock_start)));
+                tr.push(format!("[{}..{}] t{} {:?} -> {:?}{} (clock {})", r.start, r.end, r.thread, r.op, r.result, r.wrote.map(|s| format!(" wrote v{s}")).unwrap_or_default(), r.reading.map(fmt_ns).unwrap_or_else(|| fmt_ns(r.clock_start))));
             }
         }
         let sw: Vec<String> = events.windows(2).filter(|w| w[0].1 != w[1].1).map(|w| format!("step {}: t{} -> t{} (at site {})", w[1].0, w[0].1, w[1].1, w[0].2)).collect();
@@ -553,12 +592,13 @@ pub fn run_sched_case(case: &SchedCase, prop: &str, trace: bool) -> SchedRun {
         idx: usize,
         clock_start: u64,
         clock_end: u64,
+        reading: Option<u64>,
     }
     let mut writes: HashMap<u32, Vec<W>> = HashMap::new();
     let mut inval_all: Vec<W> = Vec::new();
     let mut touched: HashMap<u32, (BTreeSet<usize>, bool)> = HashMap::new();
     for r in &recs {
-        let w = W { seq: r.wrote, start: r.start, end: r.end, thread: r.thread, idx: r.idx, clock_start: r.clock_start, clock_end: r.clock_end };
+        let w = W { seq: r.wrote, start: r.start, end: r.end, thread: r.thread, idx: r.idx, clock_start: r.clock_start, clock_end: r.clock_end, reading: r.reading };
         match &r.op {
             TOp::Insert { k, .. } => {
                 writes.entry(*k).or_default().push(w);
@@ -631,6 +671,39 @@ pub fn run_sched_case(case: &SchedCase, prop: &str, trace: bool) -> SchedRun {
                 }
             }
             last_seen.insert(key, (w.idx, seq));
+        }
+        if prop == "C05" {
+            // the shown value carries the clock reading of its own insert (both are written
+            // under the map's shard lock)
+            if let (Some(d), Some(rr), Some(rw)) = (case.cfg.ttl, r.reading, w.reading) {
+                if rr >= rw + d {
+                    mkret!(Violation { prop: "C05", step: r.start as usize, msg: format!("t{} get(k{k}) [{}..{}] read the clock at {} and returned v{seq}, whose insert (t{} [{}..{}]) read the clock at {}: time_to_live {} had passed", r.thread, r.start, r.end, fmt_ns(rr), w.thread as isize, w.start, w.end, fmt_ns(rw), fmt_ns(d)) });
+                }
+                stats.expiry_decided += 1;
+            }
+        }
+        if prop == "C06" {
+            // most recent access: at most the latest reading of any insert / get of that key
+            // which started before this get ended
+            if let (Some(d), Some(rr)) = (case.cfg.tti, r.reading) {
+                let mut acc_hi = 0u64;
+                let mut known = true;
+                for o in recs.iter().filter(|o| o.start < r.end && !(o.thread == r.thread && o.idx == r.idx)) {
+                    let on_key = matches!(&o.op, TOp::Insert { k: k2, .. } | TOp::Get { k: k2 } if k2 == k);
+                    if on_key {
+                        match o.reading {
+                            Some(x) => acc_hi = acc_hi.max(x),
+                            None => known = false,
+                        }
+                    }
+                }
+                if known {
+                    if rr >= acc_hi + d {
+                        mkret!(Violation { prop: "C06", step: r.start as usize, msg: format!("t{} get(k{k}) [{}..{}] read the clock at {} and returned v{seq}, but no insert or get of k{k} that began before it read the clock later than {}: time_to_idle {} had passed", r.thread, r.start, r.end, fmt_ns(rr), fmt_ns(acc_hi), fmt_ns(d)) });
+                    }
+                    stats.expiry_decided += 1;
+                }
+            }
         }
         if prop == "C07" {
             // a get that starts after an invalidation ended must not see a targeted value
@@ -818,9 +891,18 @@ pub fn run_sched_case(case: &SchedCase, prop: &str, trace: bool) -> SchedRun {
     // ---- C03: nothing is lost below capacity (unbounded configurations) -----------
     // (C07 runs the same oracle for its "precise" clause: keys re-inserted after an
     // invalidation remain retrievable)
-    if (prop == "C03" || (prop == "C07" && stats.had_invalidation)) && case.cfg.cap.is_none() {
-        let prop_static: &'static str = if prop == "C07" { "C07" } else { "C03" };
+    if (prop == "C03" || prop == "C16" || (prop == "C07" && stats.had_invalidation)) && case.cfg.cap.is_none() {
+        let prop_static: &'static str = if prop == "C07" { "C07" } else if prop == "C16" { "C16" } else { "C03" };
         let now_clock = clock_ns.load(Ordering::SeqCst);
+        // C16: what an iteration yields after quiescence
+        let iterated: Vec<(u32, u32)> = if prop == "C16" { cache.iter().map(|e| (e.key().k, e.value().seq)).collect() } else { Vec::new() };
+        if prop == "C16" {
+            let mut ks: Vec<u32> = iterated.iter().map(|x| x.0).collect();
+            ks.sort();
+            if ks.windows(2).any(|w| w[0] == w[1]) {
+                mkret!(Violation { prop: "C16", step: stats.steps as usize, msg: format!("after quiescence an iteration yielded a key twice: {iterated:?}") });
+            }
+        }
         for (k, ws) in &writes {
             // the unique last write, if there is one that no other write overlaps or follows
             let maximal: Vec<&W> = ws.iter().filter(|w| !ws.iter().any(|w2| !std::ptr::eq(*w, w2) && w2.end > w.start && !(w2.end < w.start))).collect();
@@ -834,11 +916,36 @@ pub fn run_sched_case(case: &SchedCase, prop: &str, trace: bool) -> SchedRun {
             }
             let age = now_clock - w.clock_start;
             let min_d = [case.cfg.ttl, case.cfg.tti].into_iter().flatten().min();
-            if min_d.map_or(false, |d| age >= d) {
+            // definitely live: the ttl counts from the insert's clock reading (the earliest
+            // possible one if unknown); the tti from the latest known access: the insert or a
+            // successful get that returned this very value (its recorded read was applied by
+            // the sync() that preceded this check)
+            // (a get extends the idle timer only once its recorded read has been applied: it
+            // is credited only if the clock stood still during the get and was never advanced
+            // while a maintenance run was in progress; then every expiry sweep that follows
+            // the get runs at a single clock value after applying the recorded read)
+            let last_access = if stats.advance_during_maintenance {
+                w.clock_start
+            } else {
+                recs.iter().filter(|r| matches!(&r.op, TOp::Get { k: k2 } if k2 == k) && r.result == Some(seq) && r.clock_start == r.clock_end).filter_map(|r| r.reading).max().unwrap_or(0).max(w.clock_start)
+            };
+            let ttl_over = case.cfg.ttl.map_or(false, |d| age >= d);
+            let tti_over = case.cfg.tti.map_or(false, |d| now_clock - last_access >= d);
+            if ttl_over || tti_over {
+                continue;
+            }
+            if last_access > w.clock_start && case.cfg.tti.is_some() {
+                stats.expiry_decided += 1;
+            }
+            if prop == "C16" {
+                if !iterated.iter().any(|x| x == &(*k, seq)) {
+                    mkret!(Violation { prop: "C16", step: stats.steps as usize, msg: format!("no max_capacity is configured; insert(k{k}, v{seq}) [{}..{}] was the last write of that key, it is not invalidated and not expired (inserted at {}, last successful get at {}, now {}; ttl {:?}, tti {:?}), yet an iteration after quiescence yields {:?}", w.start, w.end, fmt_ns(w.clock_start), fmt_ns(last_access), fmt_ns(now_clock), case.cfg.ttl.map(fmt_ns), case.cfg.tti.map(fmt_ns), iterated) });
+                }
+                stats.refill_checked = true;
                 continue;
             }
             if !snap.entries.iter().any(|e| e.k == *k && e.seq == seq) {
-                mkret!(Violation { prop: prop_static, step: stats.steps as usize, msg: format!("no max_capacity is configured and insert(k{k}, v{seq}) [{}..{}] was the last write of that key (every other write of it had completed before it began), it is neither expired (age {} of {:?}) nor invalidated, yet after quiescence the cache holds {:?} for that key", w.start, w.end, fmt_ns(age), min_d, snap.entries.iter().find(|e| e.k == *k).map(|e| e.seq)) });
+                mkret!(Violation { prop: prop_static, step: stats.steps as usize, msg: format!("no max_capacity is configured and insert(k{k}, v{seq}) [{}..{}] was the last write of that key (every other write of it had completed before it began), it is neither expired (inserted {} ago, last credited successful get at {}, now {}; ttl/tti minimum {:?}) nor invalidated, yet after quiescence the cache holds {:?} for that key", w.start, w.end, fmt_ns(age), fmt_ns(last_access), fmt_ns(now_clock), min_d.map(fmt_ns), snap.entries.iter().find(|e| e.k == *k).map(|e| e.seq)) });
             }
             stats.refill_checked = true;
         }
@@ -891,7 +998,7 @@ pub fn run_guarded(case: &SchedCase, prop: &str, trace: bool) -> SchedRun {
 
 // ---- generation -----------------------------------------------------------------
 
-fn top(nkeys: u32, fill: bool) -> BoxedStrategy<TOp> {
+fn top(nkeys: u32, fill: bool, expiry: bool, gets: bool) -> BoxedStrategy<TOp> {
     let mut v: Vec<(u32, BoxedStrategy<TOp>)> = vec![
         (30, (0..nkeys, 0u32..4).prop_map(|(k, w)| TOp::Insert { k, w }).boxed()),
         (26, (0..nkeys).prop_map(|k| TOp::Get { k }).boxed()),
@@ -899,10 +1006,13 @@ fn top(nkeys: u32, fill: bool) -> BoxedStrategy<TOp> {
         (10, (0..nkeys).prop_map(|k| TOp::Invalidate { k }).boxed()),
         (5, Just(TOp::InvalidateAll).boxed()),
         (8, Just(TOp::Sync).boxed()),
-        (8, prop_oneof![Just(1u64), Just(MS), Just(501 * MS), Just(SEC)].prop_map(|ns| TOp::Advance { ns }).boxed()),
+        (if expiry { 16 } else { 8 }, prop_oneof![Just(1u64), Just(MS), Just(501 * MS), Just(SEC), Just(600 * MS), Just(400 * MS)].prop_map(|ns| TOp::Advance { ns }).boxed()),
     ];
     if fill {
         v.push((6, prop_oneof![Just(70u32), Just(400)].prop_map(|n| TOp::Fill { n }).boxed()));
+    }
+    if gets {
+        v.push((6, (0..nkeys, prop_oneof![Just(70u32), Just(100), Just(130), Just(400)]).prop_map(|(k, n)| TOp::Gets { k, n }).boxed()));
     }
     proptest::strategy::Union::new_weighted(v).boxed()
 }
@@ -945,20 +1055,33 @@ pub fn sched_strategy(prop: &str, thorough: bool) -> BoxedStrategy<SchedCase> {
         return recency_strategy(thorough);
     }
     let fill = prop == "C09" || prop == "C04";
+    let gets = prop == "C09" || prop == "C11";
+    let expiry_prop: Option<&'static str> = match prop {
+        "C05" => Some("C05"),
+        "C06" => Some("C06"),
+        "C16" => Some("C16"),
+        _ => None,
+    };
     let max_pre = if thorough { 8usize } else { 4 };
     (1u32..4, 2usize..5, any::<u8>(), any::<u8>(), any::<u8>(), any::<u8>(), any::<u8>())
         .prop_flat_map(move |(nkeys, nthreads, capsel, wsel, ttlsel, ttisel, first)| {
             let cap = [None, Some(1u64), Some(2), Some(3), Some(4), Some(2), None][capsel as usize % 7];
             let weigher = if wsel % 3 == 0 { WeigherKind::Value } else { WeigherKind::None };
             let durs = [None, None, None, Some(SEC), Some(600 * MS), Some(1u64), Some(0)];
-            let ttl = durs[ttlsel as usize % durs.len()];
-            let tti = durs[ttisel as usize % durs.len()];
+            let mut ttl = durs[ttlsel as usize % durs.len()];
+            let mut tti = durs[ttisel as usize % durs.len()];
+            if expiry_prop == Some("C05") && ttl.is_none() {
+                ttl = Some([SEC, 600 * MS, MS][ttlsel as usize % 3]);
+            }
+            if (expiry_prop == Some("C06") || expiry_prop == Some("C16")) && tti.is_none() && ttisel % 4 != 0 {
+                tti = Some([SEC, 600 * MS, MS][ttisel as usize % 3]);
+            }
             let cfg = Cfg { kind: Kind::Sync, cap, weigher, ttl, tti, hasher: HasherKind::Sip, init_cap: None, nkeys };
             let max_steps = 60 * nthreads as u32;
             (
                 Just(cfg),
-                proptest::collection::vec(top(nkeys, false), 0..4),
-                proptest::collection::vec(proptest::collection::vec(top(nkeys, fill), 1..7), nthreads..=nthreads),
+                proptest::collection::vec(top(nkeys, false, expiry_prop.is_some(), false), 0..4),
+                proptest::collection::vec(proptest::collection::vec(top(nkeys, fill, expiry_prop.is_some(), gets), 1..7), nthreads..=nthreads),
                 proptest::collection::vec((0u32..65536, any::<u8>()), 0..=max_pre),
                 Just(first),
                 Just(max_steps),
@@ -1000,17 +1123,25 @@ fn litmus() -> Vec<(&'static str, SchedCase)> {
         ("invalidate || re-insert; get(c); insert(c, heavy) (no explicit sync)", SchedCase { cfg: base(Some(2), None), init: vec![ins(0, 1), TOp::Sync], threads: vec![vec![TOp::Invalidate { k: 0 }], vec![ins(0, 1), get(1), get(1), ins(1, 2), get(0), get(1)]], preempt: vec![], first: 0, patience: 0 }),
         ("sync || invalidate; insert; get (old value at its tti)", SchedCase { cfg: Cfg { tti: Some(SEC), ..base(None, None) }, init: vec![ins(0, 1), TOp::Sync], threads: vec![vec![TOp::Sync], vec![TOp::Advance { ns: SEC }, TOp::Invalidate { k: 0 }, ins(0, 1), get(0)]], preempt: vec![], first: 0, patience: 0 }),
         ("sync || invalidate_all; invalidate; insert; get", SchedCase { cfg: base(None, None), init: vec![ins(0, 1), TOp::Sync, TOp::Advance { ns: 1 }], threads: vec![vec![TOp::Sync], vec![TOp::InvalidateAll, TOp::Invalidate { k: 0 }, ins(0, 1), get(0)]], preempt: vec![], first: 0, patience: 0 }),
+        ("insert; get || advance ttl; insert", SchedCase { cfg: base(None, Some(SEC)), init: vec![ins(0, 1), TOp::Sync], threads: vec![vec![ins(0, 1), get(0)], vec![TOp::Advance { ns: SEC }, ins(0, 1), get(0)]], preempt: vec![], first: 0, patience: 0 }),
+        ("insert; get || advance tti; insert", SchedCase { cfg: Cfg { tti: Some(SEC), ..base(None, None) }, init: vec![ins(0, 1), TOp::Sync], threads: vec![vec![ins(0, 1), get(0)], vec![TOp::Advance { ns: SEC }, ins(0, 1), get(0)]], preempt: vec![], first: 0, patience: 0 }),
+        ("get || advance; get; advance (tti, reads recorded out of order)", SchedCase { cfg: Cfg { tti: Some(SEC), ..base(None, None) }, init: vec![ins(0, 1), TOp::Sync, TOp::Advance { ns: 100 * MS }], threads: vec![vec![get(0)], vec![TOp::Advance { ns: 500 * MS }, get(0), TOp::Advance { ns: 600 * MS }]], preempt: vec![], first: 0, patience: 0 }),
+        ("get || advance; get; advance; sync; get (tti)", SchedCase { cfg: Cfg { tti: Some(SEC), ..base(None, None) }, init: vec![ins(0, 1), TOp::Sync, TOp::Advance { ns: 100 * MS }], threads: vec![vec![get(0)], vec![TOp::Advance { ns: 500 * MS }, get(0), TOp::Advance { ns: 600 * MS }, TOp::Sync, get(0)]], preempt: vec![], first: 0, patience: 0 }),
+        ("insert; sync || 100 gets; insert (read queue beyond its flush point)", SchedCase { cfg: base(Some(2), None), init: vec![ins(0, 1), TOp::Sync], threads: vec![vec![ins(1, 1), TOp::Sync], vec![TOp::Gets { k: 0, n: 100 }, ins(0, 1)]], preempt: vec![], first: 0, patience: 0 }),
+        ("insert; sync || 400 gets (read queue full)", SchedCase { cfg: base(Some(2), None), init: vec![ins(0, 1), TOp::Sync], threads: vec![vec![ins(1, 1), TOp::Sync], vec![TOp::Gets { k: 0, n: 400 }, get(0)]], preempt: vec![], first: 0, patience: 0 }),
         ("invalidate_all || invalidate_all (clock advancing)", SchedCase { cfg: base(None, None), init: vec![ins(0, 1), TOp::Advance { ns: 1 }], threads: vec![vec![TOp::InvalidateAll], vec![TOp::Advance { ns: 1 }, ins(1, 1), TOp::Advance { ns: 1 }, TOp::InvalidateAll, get(1)]], preempt: vec![], first: 0, patience: 0 }),
     ]
 }
 
-pub const RULE: &str = "bounded-exhaustive small scope (every 2-thread program with 1-2 ops per thread over an alphabet of 8 operations x 3 initial states x 2 configurations, every schedule with at most one preemption; quick: a seed-dependent quarter of the programs, thorough: all) plus small concurrent programs (2-4 real threads x 1-6 ops over insert/get/contains_key/invalidate/invalidate_all/sync/clock-advance on 1-3 keys; capacity none/1..4, ttl, tti, weigher) whose schedule is a generated list of preemptions at library switch points; plus a fixed litmus catalogue enumerated exhaustively for <= 2 preemptions; non-trivial = >= 2 threads touched the same key, >= 1 of them wrote it, and >= 1 generated preemption actually took place; distinct = distinct (program, schedule) hash";
+pub const RULE: &str = "bounded-exhaustive small scope (every 2-thread program with 1-2 ops per thread over an alphabet of 8 operations x 3 initial states x 2 configurations, every schedule with at most one preemption; quick: a seed-dependent quarter of the programs, thorough: all) plus small concurrent programs (2-4 real threads x 1-6 ops over insert/get/contains_key/invalidate/invalidate_all/sync/clock-advance on 1-3 keys; capacity none/1..4, ttl, tti, weigher) whose schedule is a generated list of preemptions at library switch points; plus a fixed litmus catalogue enumerated exhaustively for <= 2 preemptions (programs longer than 300 switch points: every position among the first 120, every 40th part of the rest); non-trivial = >= 2 threads touched the same key, >= 1 of them wrote it, and >= 1 generated preemption actually took place; distinct = distinct (program, schedule) hash";
 
 pub fn nontrivial(prop: &str, st: &SchedStats) -> bool {
     match prop {
         "C09" => st.overlapping_sync || st.write_queue_filled || st.forced_switches > 0,
         "C12" => st.refill_checked && st.used_preemptions >= 1,
         "C07" => st.had_invalidation && st.used_preemptions >= 1 && st.shared_key_with_writer,
+        "C05" | "C06" => st.expiry_decided >= 1 && st.used_preemptions >= 1 && st.shared_key_with_writer,
+        "C16" => st.refill_checked && st.used_preemptions >= 1 && st.shared_key_with_writer,
         _ => st.shared_key_with_writer && st.used_preemptions >= 1,
     }
 }
@@ -1058,7 +1189,10 @@ pub fn sched_worker(a: &WorkerArgs) -> WorkerResult {
                 let from = pre.last().map_or(1, |p| p.0 + 1);
                 // the run length may change after a preemption; probe generously
                 let upto = len0 + 40;
-                for s in from..=upto {
+                // long programs (bursts of gets): every position among the first 120
+                // switch points, a sample of the later ones
+                let stride = if len0 > 300 { (len0 / 40).max(1) } else { 1 };
+                for s in (from..=upto).filter(|s| *s <= 120 || (*s - 120) % stride == 0) {
                     let mut any_used = false;
                     for c in 0..nthreads.saturating_sub(1) {
                         let mut p2 = pre.clone();
